@@ -429,3 +429,142 @@ func verifControlHiddenShare[T any](d time.Duration) func(Observable[T]) Observa
 	return BufferWhen[T](Pipe1(Interval(d), Share[int64]()))
 }
 `
+
+// MUTABLE-SEED: a seed handed to an operator when the pipeline is built is not a mutable value its callback mutates.
+func ruleMutableSeed() check.Rule {
+	return check.Rule{
+		Name:        "MUTABLE-SEED",
+		NeedControl: true,
+		Doc:         "outside the subscribe closures (when the operator is built or applied), no call hands an operator both a freshly created map / slice / pointer value (composite literal, make, new, &T{}) and a callback literal that stores through its parameter of that same type (`acc[k] = v`, `*acc = …`, `acc.f = …`, delete(acc, k)): the value is created once per operator value, every subscription folds into the same one, and the result already delivered to an earlier subscriber is mutated by the next (ToMap rewritten as Reduce(…, map[K]V{}))",
+		Run: func(c *check.Ctx) {
+			m := c.M
+			scs := scLits(m)
+			n := 0
+			for _, p := range m.Pkgs {
+				armed := c.ArmedPkg(p.PkgPath)
+				info := p.TypesInfo
+				for _, f := range p.Syntax {
+					if strings.HasSuffix(c.Prog.Fset.Position(f.Pos()).Filename, "_test.go") {
+						continue
+					}
+					ast.Inspect(f, func(x ast.Node) bool {
+						if l, ok := x.(*ast.FuncLit); ok && scs[l] != nil {
+							return false // per subscription
+						}
+						call, ok := x.(*ast.CallExpr)
+						if !ok || len(call.Args) < 2 {
+							return true
+						}
+						// fresh mutable arguments
+						var seeds []ast.Expr
+						for _, a := range call.Args {
+							if isFreshMutable(info, a) {
+								seeds = append(seeds, a)
+							}
+						}
+						if len(seeds) == 0 {
+							return true
+						}
+						for _, a := range call.Args {
+							lit, ok := ast.Unparen(a).(*ast.FuncLit)
+							if !ok || lit.Type.Params == nil {
+								continue
+							}
+							for _, prm := range model.FlattenParams(info, lit.Type.Params) {
+								if prm == nil {
+									continue
+								}
+								matches := false
+								for _, sd := range seeds {
+									if t := info.TypeOf(sd); t != nil && types.Identical(t, prm.Type()) {
+										matches = true
+									}
+								}
+								if !matches || !storesThrough(info, lit.Body, prm) {
+									continue
+								}
+								n++
+								fd := topDecl(m.EnclosingFuncs(p, call))
+								key := fmt.Sprintf("%s.%s/mutable-seed-%s", model.ShortPkg(p.PkgPath), model.DeclName(fd), prm.Name())
+								c.Report(armed, key, call.Pos(), "the %s created here once, when the operator is built, is handed to a callback that stores through its parameter %s: every subscription folds into the same value, and what an earlier subscriber received is mutated by the next", info.TypeOf(seeds[0]).String(), prm.Name())
+							}
+						}
+						return true
+					})
+				}
+			}
+			c.Inc("mutable_seed_sites", n)
+		},
+	}
+}
+
+func isFreshMutable(info *types.Info, e ast.Expr) bool {
+	t := info.TypeOf(e)
+	if t == nil {
+		return false
+	}
+	switch t.Underlying().(type) {
+	case *types.Map, *types.Slice, *types.Pointer:
+	default:
+		return false
+	}
+	switch x := ast.Unparen(e).(type) {
+	case *ast.CompositeLit:
+		return true
+	case *ast.UnaryExpr:
+		if x.Op == token.AND {
+			_, ok := ast.Unparen(x.X).(*ast.CompositeLit)
+			return ok
+		}
+	case *ast.CallExpr:
+		if id, ok := ast.Unparen(x.Fun).(*ast.Ident); ok && (id.Name == "make" || id.Name == "new") {
+			_, isBuiltin := info.Uses[id].(*types.Builtin)
+			return isBuiltin
+		}
+	}
+	return false
+}
+
+// storesThrough: body contains a store through parameter v (index, field, dereference) or delete(v, …).
+func storesThrough(info *types.Info, body ast.Node, v *types.Var) bool {
+	found := false
+	ast.Inspect(body, func(x ast.Node) bool {
+		switch y := x.(type) {
+		case *ast.AssignStmt:
+			for _, l := range y.Lhs {
+				if _, plain := ast.Unparen(l).(*ast.Ident); plain {
+					continue
+				}
+				if id, _ := rootIdent(l); id != nil && objOf(info, id) == types.Object(v) {
+					found = true
+				}
+			}
+		case *ast.IncDecStmt:
+			if _, plain := ast.Unparen(y.X).(*ast.Ident); !plain {
+				if id, _ := rootIdent(y.X); id != nil && objOf(info, id) == types.Object(v) {
+					found = true
+				}
+			}
+		case *ast.CallExpr:
+			if id, ok := ast.Unparen(y.Fun).(*ast.Ident); ok && id.Name == "delete" && len(y.Args) > 0 {
+				if aid, _ := rootIdent(y.Args[0]); aid != nil && objOf(info, aid) == types.Object(v) {
+					found = true
+				}
+			}
+		}
+		return !found
+	})
+	return found
+}
+
+const controlsMutableSeed = `
+func verifControlSharedSeed[T any, K comparable](key func(T) K) func(Observable[T]) Observable[map[K]T] {
+	return Reduce(
+		func(acc map[K]T, item T) map[K]T {
+			acc[key(item)] = item
+			return acc
+		},
+		map[K]T{},
+	)
+}
+`
